@@ -239,6 +239,17 @@ class C19:
         for k in sorted(ln, key=lambda k: (len(k), k)): self.line_names.setdefault(ln[k], k)
         stats = {}; dist = {}; viols = []; n_eval = 0
         problems = []
+        # ---- the Java MODEL: Xraylib.java's static numeric methods machine-translated to Lean on every run (tools/j2lean.py), tied to the real
+        #      Java by execution, and 105 theorems `java_eq_c_*` against the machine-translated C (lean/Xrl/Props/C19.lean)
+        if not replay:
+            try:
+                from props.c19_model import java_model_step
+                mrep = dict(problems=[], proof_broken=[], tie_broken=[])
+                ctx.c19_build = b
+                java_model_step(ctx, mrep)
+                problems += ['theorem no longer checks: ' + t for t in mrep['proof_broken']] + ['Java model tie: ' + t for t in mrep['tie_broken']] + mrep['problems']
+            except BuildError as ex:
+                problems.append('Java model step could not build: ' + str(ex)[:400])
         if plan['sig_mismatch']: problems.append('signatures differ between C and Java: ' + '; '.join(plan['sig_mismatch'][:5]))
         if plan['missing_java']: problems.append('Java lacks methods the comparison expects: %s' % plan['missing_java'])
         def account(line, ca, ja, cfg=''):
@@ -370,10 +381,14 @@ class C19:
                    known_findings_reproduced=[dict(key=k, calls=len(vs), example=vs[0]['key']) for k, vs in seen_known.items()],
                    disagreement_classes=_classes(self, viols, known),
                    disagreements_new=len(new), problems=problems, xraylib_dat_bytes=b['dat_size'], java_sources=b['java_sources'],
-                   scope_note='translation validation by differential execution: no theorem speaks about the Java code; "every argument tuple" is covered by enumeration / seeded '
-                              'sampling of the discrete space and sampling of the continuous one only',
+                   obligations=int(ctx.coverage.get('java_theorems', 0)), discharged=int(ctx.coverage.get('java_theorems_discharged', 0)),
+                   checker_cmd='cd lean && lake build Xrl.Props.C19  (then `#print axioms` on each theorem)',
+                   java_model=dict(ctx.coverage),
+                   scope_note='the static numeric methods of Xraylib.java are machine-translated to Lean on every run and %s of them are proved equivalent to the machine-translated C '
+                              '(theorems java_eq_c_*); the remaining methods (strings, crystals, complex numbers, compound data) and the data file xraylib.dat are covered by '
+                              'translation validation: differential execution of the real Java against the real C, enumeration / seeded sampling' % ctx.coverage.get('java_methods_with_theorem', '?'),
                    provenance=dict(tree=cbuild.tree_hash(REPO, ('java', 'src', 'include'))))
-        core.write_evidence(ctx, 'translation_validation', cov, len(new) + (1 if problems and not new else 0),
+        core.write_evidence(ctx, 'proof' if cov.get('obligations') else 'translation_validation', cov, len(new) + (1 if problems and not new else 0),
                             ['the C library is the reference (its own properties are C01-C17)', 'shipped data configuration: data/kissel_pe.dat of the working tree (see report for the Kissel tables)'])
         log('C19 %s: exit %d (%.1fs; %d methods, %d calls compared, %d disagreements new, %d known)' % (ctx.tier, exit_code, time.time() - ctx.t0,
             cov['programs'], n_eval, len(new), sum(len(v) for v in seen_known.values())))
